@@ -1,7 +1,92 @@
-(* C40: SPDY server enforces stream and flow-control rules.  Property theorems only. *)
+(* C40: SPDY server enforces stream and flow-control rules.  Property theorems only.
+   The model (model/SpdyServer.v) is the serve-loop state machine; `run_events c evs` folds a list of
+   events (client frames, handler reads/writes) and returns the per-event observations. *)
 From Coq Require Import List ZArith Bool.
 From Bfe Require Import lib.Val model.SpdyServer proofs.SpdyServerProofs run.RunC40.
 Import ListNotations.
 Open Scope Z_scope.
-Theorem C40_tmp : True. Proof. exact c40_placeholder. Qed.
-Print Assumptions C40_tmp.
+
+(* For EVERY sequence of events (any client frames in any order, any handler behaviour; DATA lengths are
+   non-negative, as lengths are) from a fresh connection:
+   - no event reaches one of the server's panic("internal error ...") sites (no Bug observation), and
+   - inbound_within_window: in the final (hence in every reachable) state the invariant Inv holds:
+       0 <= session receive window,  session window + all unread buffered bytes <= 65536 (what was advertised),
+       and per stream 0 <= stream window, stream window + buffered <= 65536;
+     i.e. the server never holds more DATA than it advertised, per stream and per session. *)
+Theorem C40_no_bug_reachable_and_inbound_within_window : forall maxs evs os cf,
+  forallb ev_ok evs = true -> run_events (init_conn maxs) evs = Some (os, cf) ->
+  existsb (val_eqb Bug) os = false /\ Inv cf.
+Proof. exact no_bug_from_init. Qed.
+Print Assumptions C40_no_bug_reachable_and_inbound_within_window.
+
+(* inbound_within_window, event level: a DATA frame longer than the stream's or the session's remaining
+   window is not buffered; the stream is reset with FLOW_CONTROL_ERROR (7). *)
+Theorem C40_excess_data_is_flow_error : forall c id n fin s,
+  find_s id (strs c) = Some s -> sstate s = 1 -> hasbody s = true ->
+  (decl s = -1 \/ bodyb s + n <= decl s) -> 0 < n -> zmin (sinflow s) (cinflow c) < n ->
+  process_data c id n fin = then_tickle (reset_stream c id 7).
+Proof. exact data_over_window_reset. Qed.
+Print Assumptions C40_excess_data_is_flow_error.
+
+(* ... and an accepted DATA frame takes exactly its length from both windows and buffers exactly that. *)
+Theorem C40_accepted_data_accounting : forall c id n s,
+  find_s id (strs c) = Some s -> sstate s = 1 -> hasbody s = true -> decl s = -1 ->
+  0 < n -> n <= zmin (sinflow s) (cinflow c) -> bclosed s = false -> buf s + n <= INITWIN ->
+  process_data c id n false =
+  (upd (set_cin c (cinflow c - n)) (s_with_in s (sinflow s - n) (buf s + n) (bodyb s + n) 1), []).
+Proof. exact data_accept. Qed.
+Print Assumptions C40_accepted_data_accounting.
+
+(* replenish_by_consumed, positive part: when a handler reads n > 0 buffered bytes (n = min(k, buffered)) the
+   first frame written is WINDOW_UPDATE(session, n), in every reachable state not silenced by a GOAWAY. *)
+Theorem C40_replenish_by_consumed_reads : forall c id k s,
+  Inv c -> find_s id (strs c) = Some s -> 0 < zmin k (buf s) -> muted c = false ->
+  exists c' fs, handler_read c id k = (c', f_wu 0 (zmin k (buf s)) :: fs, zmin k (buf s)).
+Proof. exact read_replenishes. Qed.
+Print Assumptions C40_replenish_by_consumed_reads.
+
+(* replenish_by_consumed is REFUTED for dropped DATA (known finding 1): a client that sends 1000 bytes on a
+   stream that does not exist and then uses the session normally never gets those 1000 bytes of session
+   window back: the executable property is false on the model's own trace, and the input is in the
+   known-finding class; the same exchange without the stray frame satisfies the property. *)
+Theorem C40_replenish_by_consumed_refuted :
+  prop_C40 w_leak (run_C40 w_leak) = false /\ kf_C40 w_leak = 1.
+Proof. exact leak_lemma. Qed.
+Print Assumptions C40_replenish_by_consumed_refuted.
+Example C40_replenish_nonvacuous : prop_C40 w_noleak (run_C40 w_noleak) = true /\ kf_C40 w_noleak = 0.
+Proof. exact noleak_lemma. Qed.
+
+(* inbound_within_window is REFUTED from the client's point of view (known finding 2): the stream-level
+   WINDOW_UPDATE waits behind the stream's flow-blocked response DATA while the server already counts the
+   window as given, so 65536 bytes are accepted when the client has been told 35536. *)
+Theorem C40_advertised_window_refuted :
+  prop_C40 w_hol (run_C40 w_hol) = false /\ kf_C40 w_hol = 2.
+Proof. exact hol_lemma. Qed.
+Print Assumptions C40_advertised_window_refuted.
+
+(* invalid_ids_rejected: before any GOAWAY, a SYN_STREAM whose id is even or lower than the highest id seen
+   ends the session with GOAWAY(last-good = highest id, PROTOCOL_ERROR); a repeated highest id resets that stream. *)
+Theorem C40_invalid_ids_rejected : forall c id fin cl bad,
+  goaway c < 0 -> (id mod 2 <> 1 \/ id < maxid c) ->
+  process_syn c id fin cl bad = go_away c 1 /\ snd (go_away c 1) = [f_goaway (maxid c) 1].
+Proof. exact syn_invalid_id. Qed.
+Print Assumptions C40_invalid_ids_rejected.
+Theorem C40_duplicate_id_reset : forall c id fin cl bad,
+  goaway c < 0 -> id mod 2 = 1 -> id = maxid c ->
+  process_syn c id fin cl bad = then_tickle (reset_stream c id 1).
+Proof. exact syn_dup_id. Qed.
+Print Assumptions C40_duplicate_id_reset.
+
+(* closed_stream_frames_rejected: DATA for a stream that is not in the table is answered with
+   RST_STREAM(INVALID_STREAM); DATA for a stream the client already half-closed is answered with
+   RST_STREAM(STREAM_ALREADY_CLOSED) and the stream is closed.  (emit = nothing after a GOAWAY with an error status) *)
+Theorem C40_closed_stream_frames_rejected : forall c id n fin,
+  find_s id (strs c) = None ->
+  exists c' fs, process_data c id n fin = (c', emit c [f_rst id 2] ++ fs).
+Proof. exact data_unknown_stream. Qed.
+Print Assumptions C40_closed_stream_frames_rejected.
+Theorem C40_half_closed_stream_data_rejected : forall c id n fin s,
+  find_s id (strs c) = Some s -> sstate s <> 1 ->
+  process_data c id n fin = then_tickle (close_s c id, emit c [f_rst id 9]).
+Proof. exact data_closed_stream. Qed.
+Print Assumptions C40_half_closed_stream_data_rejected.
